@@ -113,7 +113,12 @@ Proof. exact bodies_ieee. Qed.
 Print Assumptions C13_bodies_compute_the_ieee_operations.
 
 (* (b) and those operations are the correctly rounded real operations
-   (RN = round to nearest even into binary64) whenever their result is finite *)
+   (RN = round to nearest even into binary64) whenever their result is finite;
+   floor is the real floor and keeps the sign (floor(-0.0) = -0.0); fmax / fmin are
+   the real max / min and return their FIRST argument when the two compare equal
+   (glibc; so fmax(-0,+0) = -0); fmod is EXACT, x - trunc(x/y)*y with no rounding,
+   smaller than |y| and with the sign of x, and a zero divisor gives a NaN (which
+   the guard of real::mod turns into the undefined value) *)
 Theorem C13_ieee_operations_on_the_reals : forall x y, F64.is_finite x = true -> F64.is_finite y = true ->
   (F64.is_finite (F64.add x y) = true -> B2R (F64.add x y) = RN (B2R x + B2R y)) /\
   (F64.is_finite (F64.sub x y) = true -> B2R (F64.sub x y) = RN (B2R x - B2R y)) /\
@@ -121,8 +126,18 @@ Theorem C13_ieee_operations_on_the_reals : forall x y, F64.is_finite x = true ->
   (F64.is_finite (F64.div x y) = true -> B2R y <> 0%R /\ B2R (F64.div x y) = RN (B2R x / B2R y)) /\
   (F64.ltb x zero = false -> F64.is_finite (F64.sqrt x) = true /\ B2R (F64.sqrt x) = RN (sqrt (B2R x))) /\
   (F64.is_finite (F64.abs x) = true /\ B2R (F64.abs x) = Rabs (B2R x)) /\
-  (F64.is_finite (F64.floor x) = true /\ B2R (F64.floor x) = IZR (Zfloor (B2R x))) /\
-  (F64.is_finite (F64.fmax x y) = true /\ B2R (F64.fmax x y) = Rmax (B2R x) (B2R y)).
+  (F64.is_finite (F64.floor x) = true /\ B2R (F64.floor x) = IZR (Zfloor (B2R x)) /\
+   Bsign (F64.floor x) = Bsign x) /\
+  (F64.is_finite (F64.fmax x y) = true /\ B2R (F64.fmax x y) = Rmax (B2R x) (B2R y) /\
+   ((B2R y <= B2R x)%R -> F64.fmax x y = x) /\ ((B2R x < B2R y)%R -> F64.fmax x y = y)) /\
+  (F64.is_finite (F64.fmin x y) = true /\ B2R (F64.fmin x y) = Rmin (B2R x) (B2R y) /\
+   ((B2R x <= B2R y)%R -> F64.fmin x y = x) /\ ((B2R y < B2R x)%R -> F64.fmin x y = y)) /\
+  (B2R y <> 0%R ->
+     F64.is_finite (F64.fmod x y) = true /\
+     B2R (F64.fmod x y) = (B2R x - IZR (Ztrunc (B2R x / B2R y)) * B2R y)%R /\
+     (Rabs (B2R (F64.fmod x y)) < Rabs (B2R y))%R /\
+     Bsign (F64.fmod x y) = Bsign x) /\
+  (B2R y = 0%R -> F64.is_finite (F64.fmod x y) = false).
 Proof. exact ieee_values. Qed.
 Print Assumptions C13_ieee_operations_on_the_reals.
 
@@ -232,3 +247,13 @@ Proof.
                | apply (P _ (SArith 1)); [cbn; tauto|reflexivity] ].
   - vm_compute. reflexivity.
 Qed.
+(* fmod is exact also for a huge ratio: DBL_MAX mod 3 = 2, 5.5 mod -2 = 1.5, -0 mod 3 = -0;
+   ties of fmax / fmin return the first argument *)
+Example C13_fmod_fmax_examples :
+  F64.to_bits (F64.fmod (F64.of_bits 0x7FEFFFFFFFFFFFFF) (F64.of_bits 0x4008000000000000)) = 0x4000000000000000 /\
+  F64.to_bits (F64.fmod (F64.of_bits 0x4016000000000000) (F64.of_bits 0xC000000000000000)) = 0x3FF8000000000000 /\
+  F64.to_bits (F64.fmod (F64.of_bits 0x8000000000000000) (F64.of_bits 0x4008000000000000)) = 0x8000000000000000 /\
+  F64.to_bits (F64.fmax (F64.of_bits 0x8000000000000000) (F64.of_bits 0)) = 0x8000000000000000 /\
+  F64.to_bits (F64.fmax (F64.of_bits 0) (F64.of_bits 0x8000000000000000)) = 0 /\
+  F64.to_bits (F64.fmin (F64.of_bits 0) (F64.of_bits 0x8000000000000000)) = 0.
+Proof. vm_compute. repeat split; reflexivity. Qed.
